@@ -1961,6 +1961,7 @@ fn watchdog_scenario() -> (String, Vec<Fail>) {
 // ------------------------------------------------------------------------------------------
 static SINK_CALLS: std::sync::atomic::AtomicU64 = std::sync::atomic::AtomicU64::new(0);
 static THOROUGH: std::sync::atomic::AtomicBool = std::sync::atomic::AtomicBool::new(false);
+static SEARCH_DEADLINE: std::sync::OnceLock<Instant> = std::sync::OnceLock::new();
 
 struct OddSink {
     /// 0 String panic, 1 &'static str panic, 2 non-string payload, 3 slow (30 ms), 4 calls back into the control
@@ -2656,6 +2657,10 @@ fn run_random(ex: &mut Exec, out: &mut Out, rng: &mut Rng, histories: usize, max
             out.count("stopped_early.random");
             return;
         }
+        if SEARCH_DEADLINE.get().map(|d| Instant::now() > *d).unwrap_or(false) {
+            out.count("stopped_early.search_budget");
+            return;
+        }
         let rich = hno >= 12 && hno % 3 != 0 && rng.chance(1, 6);
         let line = if rich {
             // room for the prelude's chunks (1-3 wire bytes each), from "just enough" to unbounded
@@ -2807,7 +2812,7 @@ fn main() {
 
     // the watchdog scenario needs seconds of wall-clock (the code floors the tick at 1 s): run it beside the rest
     let wd_thread = if family == "credit" { Some(std::thread::spawn(watchdog_scenario)) } else { None };
-    THOROUGH.store(args.thorough(), std::sync::atomic::Ordering::Relaxed);
+    THOROUGH.store(args.thorough() && !args.out.to_string_lossy().ends_with("-search"), std::sync::atomic::Ordering::Relaxed);
     let sinks_thread = std::thread::spawn(sinks_scenario);
 
     // corpus: F3 (DESIGN.md §9) first
@@ -2818,7 +2823,15 @@ fn main() {
         out.case(line, &obs, nt);
     }
 
-    let thorough = args.thorough();
+    // `check` re-runs the family with the thorough generators when a proof or the correspondence broke and the quick
+    // run found no failing input (out dir `…-search`): that search is bounded here — thorough random histories and
+    // scenarios, the quick enumerations, and a wall-clock budget — so that a broken tree is reported within minutes
+    let search = args.out.to_string_lossy().ends_with("-search");
+    if search {
+        let _ = SEARCH_DEADLINE.set(Instant::now() + Duration::from_secs(100));
+        out.count("search_run");
+    }
+    let thorough = args.thorough() && !search;
     let enums: Vec<String> = if family == "credit" {
         out.rule = "exhaustive: every op sequence of length <= 4 over alphabet c11 (26 ops: sent 1-3, acks file 0/1 x off 0-3, cancel with reason r0 and with the empty string, advance 0/1, resumes, credit 1-3 with window 2, reconnect, 2 pushes), length <= 7 over the 10-op alphabet c11s (and <= 5 under windows 0, 1, 3, 2^64-1 with capacity 0) and length <= 5 over the 12-op alphabet c11r (cancel with 8 reason strings: r0, the watchdog's \"transfer idle\", the empty string, blanks \" \\t\\n\", 65537 x 'x', non-ASCII incl. a 4-byte scalar, a NUL, \" Transfer Idle \"; credit, reconnect, advance, resume) (thorough: <= 5 / <= 7 / <= 6); random: the first 12 histories cross window and capacity in {0, 1, 2^64-1} (and `new`); one call in 40 is repeated 2-256 times back to back (thorough: up to 1000); cancel reasons drawn from r0-r2 and (one third) those edge strings; histories of <= 200 ops over the 64-bit boundary lattice (values near sent/acked/window, 2^32, 2^48, 2^63, 2^64-k), hostile acks (future, wrong file, u64::MAX), oversized chunks, one third following the documented producer loop. Distinct by op line; non-trivial = the op changed the observable state or returned something other than unit/timeout".into();
         if thorough {
@@ -2870,7 +2883,7 @@ fn main() {
         exec_enum(&mut out, &line);
     }
     let ring_bias = family == "ring";
-    let (histories, max_len) = if thorough { (3000, 200) } else { (600, 200) };
+    let (histories, max_len) = if thorough || search { (3000, 200) } else { (600, 200) };
     run_random(&mut ex, &mut out, &mut rng, histories, max_len, ring_bias, &mut k);
 
     if let Some(h) = wd_thread {
